@@ -92,3 +92,35 @@ Lemma f7_refuted :
   writers (fst (lrun linit f7_witness)) = [(2, true); (1, false)] /\
   snd (lrun linit f7_witness) = [ROk; RIoErr; ROk].
 Proof. vm_compute. repeat split; reflexivity. Qed.
+
+(* the mechanism (guards) refines the one-line specification outside F7 *)
+Definition abs (s : lstate) : option wid :=
+  match writers s with (w, _) :: _ => Some w | [] => None end.
+
+Lemma lstep_refines s o : f7_op o = false -> linv s ->
+  snd (lstep s o) = snd (spec_step (abs s) o) /\ abs (fst (lstep s o)) = fst (spec_step (abs s) o).
+Proof.
+  intros Hf [[Hw Hh]|(w0 & Hw & Hh)]; destruct s as [h ws]; cbn [held writers] in *; subst; unfold abs; cbn [writers].
+  - destruct o as [w valid ok|w ok|w|w]; cbn [lstep spec_step held writers find].
+    + destruct valid, ok; cbn; split; reflexivity.
+    + split; reflexivity.
+    + split; reflexivity.
+    + split; reflexivity.
+  - destruct o as [w valid ok|w ok|w|w]; cbn [lstep spec_step held writers find remove_w].
+    + split; reflexivity.
+    + destruct (N.eqb w0 w); [|split; reflexivity]. destruct ok; [split; reflexivity|discriminate Hf].
+    + destruct (N.eqb w0 w); cbn; split; reflexivity.
+    + split; reflexivity.
+Qed.
+
+Theorem model_refines_spec ops : f7_class ops = false -> forall s, linv s ->
+  snd (lrun s ops) = spec_run (abs s) ops.
+Proof.
+  induction ops as [|o ops IH]; intros Hf s Hs; [reflexivity|].
+  cbn [f7_class existsb] in Hf. apply orb_false_iff in Hf. destruct Hf as [Ho Hr].
+  destruct (lstep_refines s o Ho Hs) as [E1 E2].
+  pose proof (lstep_inv s o Ho Hs) as Hi.
+  cbn [lrun spec_run]. destruct (lstep s o) as [s1 x]. cbn [fst snd] in *.
+  destruct (spec_step (abs s) o) as [a y]. cbn [fst snd] in *. subst.
+  specialize (IH Hr s1 Hi). destruct (lrun s1 ops) as [s2 xs]. cbn [snd] in *. now rewrite IH.
+Qed.
